@@ -180,6 +180,8 @@ CountNull == Ev.e = "Count" /\ "nulld" \in DOMAIN Ev /\ Ev.nulld /\ LET s == ins
                      IF Ev.ret \notin {0, 1} THEN "C09:return-value"
                      ELSE IF Ev.ret = 1 /\ Ev.off1 # Ev.off0 THEN "C15:failed-call-moved-offset"
                      ELSE IF Ev.ret = 0 /\ Ev.c >= 2 THEN "C14:count-lost-without-error"
+                     \* (below 2 - zero, one, negative - the call is a plain assembly: there is nothing to count and nothing to refuse)
+                     ELSE IF Ev.ret = 1 /\ Ev.c < 2 /\ "mustpass" \in DOMAIN Ev THEN "C14:plain-assembly-through-the-counting-call-refused"
                      ELSE IF s.ext /\ Ev.outside # 0 THEN "C07:outside-buffer"
                      ELSE "")
 Count   == Ev.e = "Count" /\ ~("nulld" \in DOMAIN Ev /\ Ev.nulld) /\ LET s == inst[Ev.i] IN
